@@ -127,12 +127,26 @@ func (w *World) opTplRender(dst *Doc, op sim.Op, o *Obs) {
 		w.Extra["loaded:"+name] = src.D
 	}
 	data := ParseTData(op.Str(0))
+	lib := data.ToLib()
+	if op.Int(3) == 1 {
+		// ONE data object for all renders of this world, as a mail merge with a shared logo uses it: the images
+		// (and every other entry) stay the objects they were at the first render, only the variables are set again
+		if shared, ok := w.Extra["shared-tdata"].(*document.TemplateData); ok {
+			for _, k := range sortedKeys(data.Vars) {
+				shared.SetVariable(k, data.Vars[k])
+			}
+			lib = shared
+			w.Stats.Probe("renders_with_reused_data_object")
+		} else {
+			w.Extra["shared-tdata"] = lib
+		}
+	}
 	var d *document.Document
 	var err error
 	if op.Int(1) == 0 {
-		d, err = eng.RenderToDocument(name, data.ToLib())
+		d, err = eng.RenderToDocument(name, lib)
 	} else {
-		d, err = eng.RenderTemplateToDocument(name, data.ToLib())
+		d, err = eng.RenderTemplateToDocument(name, lib)
 	}
 	o.Err = err
 	if err != nil || d == nil {
@@ -145,4 +159,13 @@ func (w *World) opTplRender(dst *Doc, op sim.Op, o *Obs) {
 		dst.Tables = append(dst.Tables, d.Body.GetTables()...)
 	}
 	w.Stats.Probe("template_renders")
+}
+
+func sortedKeys(m map[string]any) []string {
+	ks := make([]string, 0, len(m))
+	for k := range m {
+		ks = append(ks, k)
+	}
+	sort.Strings(ks)
+	return ks
 }
